@@ -18,3 +18,4 @@ open Emboss.View
 #print axioms C01_R_reported_by_G_partial
 #print axioms C01_G_equals_R_partial
 #print axioms C01_R_size_is_max_end_partial
+#print axioms C01_constants_partial
